@@ -39,6 +39,18 @@ def gen_extras(rng, name, ast):
             return []
         if r < 0.55:
             return [rng.choice([0, 1, 2, 5])]
+        if r < 0.63:
+            # multipliers of a million (weights emulating a priority): objective values of 7-8 digits.  The values are
+            # kept below 10^8 or multiples of the multiplier, see the known finding F16 (CBC's solution file carries 8
+            # significant digits)
+            n1 = ast['n1']
+            bound = n1 * (mr * mr if name == 'minsqcost' else mr)
+            if r < 0.58:
+                return [9000000, 0]
+            for m in (1000000, 100000):
+                if bound * m + 64 * n1 < 5 * 10**7:
+                    return [m] if (name != 'mincostlsb' and rng.random() < 0.5) else [m, rng.choice([0, 1, 3])]
+            return [1000000, 0]
         return [rng.choice([0, 1, 1, 2, 3]), rng.choice([0, 1, 1, 2, 7])]
     return []
 
